@@ -1,3 +1,3 @@
 #!/bin/sh
 # replays this counterexample against the real build
-cd /tmp/seedonly_C15d_21953 && VERIF_SCRIPT=/verif/replays/C15/VHarnessFaultQueryC15_00413677_0/script.json VERIF_RAW_SALT=0 GOFLAGS=-mod=mod GOPROXY=off go test -vet=off -count=1 -overlay /verif/replays/C15/VHarnessFaultQueryC15_00413677_0/overlay.json -run ^TestVerifReplay_VHarnessFaultQueryC15$ -v ./mint
+cd /tmp/seedrepo_C15d && VERIF_SCRIPT=/verif/replays/C15/VHarnessFaultQueryC15_00413677_0/script.json VERIF_RAW_SALT=0 GOFLAGS=-mod=mod GOPROXY=off go test -vet=off -count=1 -overlay /verif/replays/C15/VHarnessFaultQueryC15_00413677_0/overlay.json -run ^TestVerifReplay_VHarnessFaultQueryC15$ -v ./mint
